@@ -136,11 +136,11 @@ Resolve(a, name) ==
 
 VARIABLES api, name, result, done
 vars == <<api, name, result, done>>
-NoApi == [api |-> "-"]
-Init == api = NoApi /\ name = <<>> /\ result = "-" /\ done = FALSE
-Op(a, n) == /\ ~done
-            /\ api' = a /\ name' = n /\ result' = Resolve(a, n) /\ done' = TRUE
-Next == \E a \in Apis, n \in Names : Op(a, n)
+(* one initial state per API (lets TLC explore the APIs in parallel), one step: the client sends a name *)
+Init == api \in Apis /\ name = <<>> /\ result = "-" /\ done = FALSE
+Op(n) == /\ ~done
+         /\ name' = n /\ result' = Resolve(api, n) /\ done' = TRUE /\ UNCHANGED api
+Next == \E n \in Names : Op(n)
 Spec == Init /\ [][Next]_vars
 
 (* The property: the resolved path stays under the data directory or the operation is rejected. *)
